@@ -69,6 +69,9 @@ func (args *CrossChainArgs) Validate() error {
 	if args.Fee == nil || args.Fee.Sign() < 0 {
 		return errors.New("invalid fee")
 	}
+	if new(big.Int).Add(args.Amount, args.Fee).BitLen() > 256 {
+		return errors.New("amount plus fee overflows uint256")
+	}
 	if args.Target == [32]byte{} {
 		return errors.New("empty target")
 	}
